@@ -10,21 +10,31 @@ same process: `history answer == fresh answer` is the property's own oracle and 
 """
 import concurrent.futures, json, os, re, subprocess
 import vlib
+from checks import c10_gen
 
 LEVEL = "proof"
 MODULE = "Sqfs.Props.C10"
 REQUIRED = ["Sqfs.C10.coherent_init", "Sqfs.C10.coherent_seek", "Sqfs.C10.coherent_read", "Sqfs.C10.coherent_run",
             "Sqfs.C10.meta_history_independent", "Sqfs.C10.meta_answer_depends_on_image_and_query_only",
-            "Sqfs.C10.read_no_crash", "Sqfs.C10.failed_miss_unpositions", "Sqfs.C10.toyUnc_ok",
-            "Sqfs.C10.seek_then_position", "Sqfs.C10.ool_position_restored",
-            "Sqfs.C10.data_coherent_init", "Sqfs.C10.data_coherent_read", "Sqfs.C10.data_read_eq_cacheless",
-            "Sqfs.C10.data_history_independent_written", "Sqfs.C10.data_history_independent_repaired"]
+            "Sqfs.C10.read_no_crash", "Sqfs.C10.failed_miss_unpositions", "Sqfs.C10.seek_then_position",
+            "Sqfs.C10.data_coherent_init", "Sqfs.C10.data_coherent_read", "Sqfs.C10.data_coherent_run",
+            "Sqfs.C10.data_api_eq_cacheless", "Sqfs.C10.data_history_independent",
+            "Sqfs.C10.data_history_independent_written", "Sqfs.C10.stream_fail_stops",
+            "Sqfs.C10.read_eq_blocks_plus_fragment", "Sqfs.C10.stream_eq_read", "Sqfs.C10.written_file_content",
+            "Sqfs.C10.prog_history_independent", "Sqfs.C10.session_history_independent",
+            "Sqfs.C10.inode_by_ref_history_independent", "Sqfs.C10.readdir_call_history_independent",
+            "Sqfs.C10.dir_listing_history_independent", "Sqfs.C10.dir_list_history_independent",
+            "Sqfs.C10.path_resolution_history_independent", "Sqfs.C10.listing_fuel_suffices",
+            "Sqfs.C10.path_fuel_suffices", "Sqfs.C10.xattr_desc_history_independent",
+            "Sqfs.C10.xattr_set_history_independent", "Sqfs.C10.xattr_walk_history_independent",
+            "Sqfs.C10.ool_position_restored", "Sqfs.C10.toyUnc_ok"]
 
 KEY_D2 = "C10:D2:meta-seek-failed-load-keeps-old-tag"
 KEY_D3 = "C10:D3:meta-read-after-failed-seek-underflow"
 KEY_D21 = "C10:D21:data-block-cache-keyed-by-location-only"
+KEY_D33 = "C10:D33:stream-frag-fail-keeps-stale-buffer"
 
-HARNESS_SRC = ["h_c10.c", "h_c10_data.c", "h_c10_img.c"]
+HARNESS_SRC = ["h_c10.c", "h_c10_data.c", "h_c10_img.c", "h_c10_dec.c"]
 PATCHES = ["C10-meta-seek-invalidate.patch", "C10-data-reader-cache-key.patch"]
 
 
@@ -216,18 +226,31 @@ def gen_data_episode(rng, nops):
         img += raw
     if frags and rng.random() < 0.3:
         frags.append((len(img) + rng.randint(0, 50), C24 | rng.randint(1, bs)))       # entry pointing past the data
-    meta_start = len(img)
-    body = b"".join(st.to_bytes(8, "little") + w.to_bytes(4, "little") + b"\0\0\0\0" for st, w in frags)
-    if frags:
-        img += le16(0x8000 | len(body)) + body
-    loc = len(img)
-    img += meta_start.to_bytes(8, "little")
+    def put_table(entries):
+        ms = len(img)
+        body = b"".join(st.to_bytes(8, "little") + w.to_bytes(4, "little") + b"\0\0\0\0" for st, w in entries)
+        if entries:
+            if rng.random() < 0.5:
+                img.extend(le16(0x8000 | len(body)) + body)
+            else:
+                img.extend(le16(len(body) + 1) + b"\0" + body)                # toy-compressed table block
+        loc = len(img)
+        img.extend(ms.to_bytes(8, "little"))
+        return ms, loc
+
+    meta_start, loc = put_table(frags)
+    # a second fragment table (what a reload may find): the same entries rotated, or fewer
+    frags2 = (frags[1:] + frags[:1]) if rng.random() < 0.6 else frags[:max(0, len(frags) - 1)]
+    meta2, loc2 = put_table(frags2)
     used = len(img)
+    tables = [(meta_start, loc, len(frags)), (meta2, loc2, len(frags2))]
     ents = ",".join("%d:%d" % e for e in frags) or "-"
     lines = ["file " + bytes(img).hex()]
     if rng.random() < 0.2:
         c = rng.choice(chain)
         lines.append("bad %d %d" % (c["loc"], 1))
+    if frags and rng.random() < 0.15:
+        lines.append("bad %d %d" % (rng.choice(frags)[0], 1))                  # a fragment block that cannot be read
     nrd = rng.randint(1, 2)
     for k in range(nrd):
         lines.append("dr %d new %d %d %d %d %d %s" % (k, bs, meta_start, loc, len(frags), used, ents))
@@ -251,13 +274,53 @@ def gen_data_episode(rng, nops):
             words[i] = rng.choice([w ^ C24, (w & C24) | max(1, (w & (C24 - 1)) // 2), (w & C24) | min(bs, (w & (C24 - 1)) + 1), 0, C24 | bs])
         if damaged and rng.random() < 0.2 and a + 1 < len(chain):
             start = chain[a + 1]["loc"]
-        files.append((fsz, start, fidx, foff, ",".join(map(str, words)) or "-"))
+        files.append("%d %d %d %d %s" % (fsz, start, fidx, foff, ",".join(map(str, words)) or "-"))
+    sizes = [int(f.split()[0]) for f in files]
+    nblk = [0 if f.split()[4] == "-" else f.split()[4].count(",") + 1 for f in files]
+    streams = []
     for _ in range(nops):
         k = rng.randrange(nrd)
-        fsz, start, fidx, foff, ws = rng.choice(files)
-        off = rng.choice([0, 0, bs, 2 * bs, rng.randint(0, fsz + 2), rng.randint(0, fsz + 2), max(0, fsz - 1), fsz, bs - 1, bs + 1])
-        size = rng.choice([0, 1, bs, bs - 1, bs + 1, 2 * bs, fsz, fsz + 5, rng.randint(0, fsz + 3), rng.randint(0, 3 * bs), 100000])
-        lines.append("dr %d read %d %d %d %d %s %d %d" % (k, fsz, start, fidx, foff, ws, off, size))
+        fi = rng.randrange(len(files))
+        ino, fsz = files[fi], sizes[fi]
+        r = rng.random()
+        if r < 0.40:
+            off = rng.choice([0, 0, bs, 2 * bs, rng.randint(0, fsz + 2), rng.randint(0, fsz + 2), max(0, fsz - 1), fsz, bs - 1, bs + 1])
+            size = rng.choice([0, 1, bs, bs - 1, bs + 1, 2 * bs, fsz, fsz + 5, rng.randint(0, fsz + 3), rng.randint(0, 3 * bs), 100000])
+            lines.append("dr %d read %s %d %d" % (k, ino, off, size))
+        elif r < 0.50:
+            lines.append("dr %d block %s %d" % (k, ino, rng.choice([0, 0, 1, max(0, nblk[fi] - 1), nblk[fi], nblk[fi] + 1, rng.randint(0, 6)])))
+        elif r < 0.60:
+            lines.append("dr %d frag %s" % (k, ino))
+        elif r < 0.68:
+            lines.append("dr %d cat %s %d" % (k, ino, rng.choice([0, 0, 1, 3, bs, bs - 1, 1000])))
+        elif r < 0.74:
+            j = rng.randrange(4)
+            lines.append("st %d open %d %s" % (j, k, ino))
+            if j not in streams:
+                streams.append(j)
+        elif r < 0.92:
+            if streams:
+                j = rng.choice(streams)
+                lines.append("st %d get" % j)
+                if rng.random() < 0.85:
+                    lines.append("st %d adv %d" % (j, rng.choice([bs, bs, 100000, 1, 0, rng.randint(0, bs)])))
+            else:
+                lines.append("dr %d frag %s" % (k, ino))
+        elif r < 0.96:
+            t = rng.choice(tables)
+            lines.append("dr %d reload %d %d %d %d" % (k, t[0], t[1], t[2] if rng.random() < 0.9 else max(0, t[2] - 1), used))
+        else:
+            # the D33 pattern: a stream that reaches a fragment it cannot load, asked again afterwards
+            nb = rng.randint(0, min(2, len(chain)))
+            ws = [C24 | bs] * nb
+            st0 = chain[0]["loc"]
+            bad_idx = rng.choice([len(frags), len(frags) + 3, 0xFFFFFFFE])
+            lines.append("st 3 open %d %d %d %d 0 %s" % (k, nb * bs + rng.randint(1, bs - 1), st0, bad_idx, ",".join(map(str, ws)) or "-"))
+            for _ in range(nb + 2):
+                lines.append("st 3 get")
+                lines.append("st 3 adv %d" % bs)
+            if 3 not in streams:
+                streams.append(3)
     return lines, {"img_len": len(img), "kinds": ["data:" + b["kind"] for b in chain], "bs": bs, "damaged": damaged}
 
 
@@ -267,9 +330,21 @@ def strip_io(l):
     return l.split(" #io=")[0]
 
 
+ALLOC_LIMIT_MB = 128          # = Sqfs.C10P.allocLimit of lean/Sqfs/Model/C10Dec.lean
+
+
+def harness_env(ctx):
+    """the sanitizer environment of the framework plus a *deterministic* allocation limit: a request for more than
+    ALLOC_LIMIT_MB fails (SQFS_ERROR_ALLOC in the code under test, errAlloc in the model); without it the outcome of a
+    garbage size field (damaged image, bogus reference) would depend on the machine's memory"""
+    e = ctx.san_env()
+    e["ASAN_OPTIONS"] = e["ASAN_OPTIONS"] + ":max_allocation_size_mb=%d" % ALLOC_LIMIT_MB
+    return e
+
+
 def run_harness(ctx, harness, lines, timeout=120):
     try:
-        r = vlib.sh([str(harness)], input="\n".join(lines) + "\n", env=ctx.san_env(), timeout=timeout, errors="replace")
+        r = vlib.sh([str(harness)], input="\n".join(lines) + "\n", env=harness_env(ctx), timeout=timeout, errors="replace")
         err = r.stderr
         i = err.find("ERROR: AddressSanitizer")
         if i < 0:
@@ -279,40 +354,58 @@ def run_harness(ctx, harness, lines, timeout=120):
         return [], -9, "timeout"
 
 
-CRASH_RE = re.compile(r"-100[01]\b")
+CRASH_RE = re.compile(r"-100[012]\b")
 
 
-def classify(lines, impl, rc, fixm, oldm):
-    """-> (verdict, index, detail).  verdicts: ok | D2 | D3 | hist (history answer != fresh answer, not explained by the
-    witness model) | corr (model != code, no property-level failure seen) | crash"""
+def line_eq(impl, model):
+    """`?` in a model line stands for a hex digit of a byte the model of the current code says was never written
+    (memory fresh from malloc): any digit matches"""
+    if "?" not in model:
+        return impl == model
+    return len(impl) == len(model) and all(m == "?" or m == c for c, m in zip(impl, model))
+
+
+def first_hist(impl_s):
+    for i, l in enumerate(impl_s):
+        if " || " in l:
+            a, b = l.split(" || ")
+            if a != b:
+                return i
+    return None
+
+
+def classify(lines, impl, rc, fixm, oldm, curm=None):
+    """-> (verdict, index, detail).  verdicts: ok | D2 | D3 | D21 | D33 (known defects: the code follows the model of the
+    unrepaired code) | hist (history answer != fresh answer, not explained by a witness model) | corr (model != code, no
+    property-level failure seen) | crash"""
     impl_s = [strip_io(l) for l in impl]
+    if not (len(fixm) == len(oldm) == len(lines)) or (curm is not None and len(curm) != len(lines)):
+        raise vlib.CheckFailure("model answered %d/%d lines for %d ops" % (len(fixm), len(oldm), len(lines)))
+    for m in fixm:
+        if CRASH_RE.search(m) or "st=fuel" in m:
+            return "corr", fixm.index(m), "the repaired model reports a model-only outcome (%s): the model is wrong" % m[:100]
+    fh = first_hist(impl_s)
     if rc == 0 and impl_s == fixm:
-        for i, l in enumerate(impl_s):
-            if " || " in l:
-                a, b = l.split(" || ")
-                if a != b:
-                    return "hist", i, "history answer differs from fresh answer although the code follows the repaired model"
+        if fh is not None:
+            return "hist", fh, "history answer differs from fresh answer although the code follows the repaired model"
         return "ok", -1, ""
+    # the code as it is in /repo: every repair but the one of the stream (D33)
+    if curm is not None and rc == 0 and len(impl_s) == len(curm) and all(line_eq(a, b) for a, b in zip(impl_s, curm)) and fh is None:
+        d = next(i for i in range(len(fixm)) if impl_s[i] != fixm[i])
+        return "D33", d, "%s -> %s (repaired model: %s)" % (lines[d], impl_s[d][:80], fixm[d][:80])
     # does the code follow the model of the unrepaired code?
     cut = len(oldm)
     for i, l in enumerate(oldm):
         if CRASH_RE.search(l):
             cut = i
             break
-    follows_old = impl_s[:cut] == oldm[:cut] and (len(impl_s) >= cut) and (rc == 0 or len(impl_s) <= len(lines))
-    first_hist = None
-    for i, l in enumerate(impl_s):
-        if " || " in l:
-            a, b = l.split(" || ")
-            if a != b:
-                first_hist = i
-                break
+    follows_old = len(impl_s) >= cut and all(line_eq(a, b) for a, b in zip(impl_s[:cut], oldm[:cut])) and (rc == 0 or len(impl_s) <= len(lines))
     if follows_old and (rc == 0 or cut < len(oldm)):
-        if any(l.startswith("dr ") for l in lines):
-            d = first_hist if first_hist is not None else next(i for i in range(len(fixm)) if impl_s[i] != fixm[i])
+        if any(l.startswith(("dr ", "st ")) for l in lines):
+            d = fh if fh is not None else next(i for i in range(len(fixm)) if impl_s[i] != fixm[i])
             return "D21", d, "%s -> %s" % (lines[d], impl_s[d])
-        if first_hist is not None and first_hist < cut:
-            return "D2", first_hist, impl_s[first_hist]
+        if fh is not None and fh < cut:
+            return "D2", fh, impl_s[fh]
         if cut < len(oldm):
             return "D3", cut, "model of the current code: data_used - offset wraps at line %d (%s); real code rc=%d" % (cut, lines[cut], rc)
         # differs from the repaired model only in non-query lines (e.g. a read after a failed seek)
@@ -320,26 +413,37 @@ def classify(lines, impl, rc, fixm, oldm):
         return "D2", d, "impl=%s repaired-model=%s" % (impl_s[d], fixm[d])
     if rc != 0 and len(impl_s) < len(lines):
         return "crash", len(impl_s), "real code died (rc=%d) at line %d: %s" % (rc, len(impl_s), lines[len(impl_s)])
-    if first_hist is not None:
-        return "hist", first_hist, impl_s[first_hist]
+    if fh is not None:
+        return "hist", fh, impl_s[fh]
     d = next((i for i in range(min(len(impl_s), len(fixm))) if impl_s[i] != fixm[i]), min(len(impl_s), len(fixm)))
-    return "corr", d, "impl=%s model=%s" % (impl_s[d] if d < len(impl_s) else "<none>", fixm[d] if d < len(fixm) else "<none>")
+    return "corr", d, "impl=%s model=%s" % (impl_s[d][:300] if d < len(impl_s) else "<none>", fixm[d][:300] if d < len(fixm) else "<none>")
 
 
-def shrink(ctx, harness, lines, verdict):
+def shrink(ctx, harness, lines, verdict, index=None):
     """greedy line removal keeping the verdict (setup lines are kept)"""
+    import time
+    deadline = time.time() + 60                     # shrinking is a convenience: never let it dominate the run
+
     def verdict_of(ls):
+        if time.time() > deadline:
+            return None
         impl, rc, _ = run_harness(ctx, harness, ls, 30)
         text = "\n".join(ls) + "\n"
-        return classify(ls, impl, rc, ctx.driver(["c10"], text), ctx.driver(["c10", "old"], text))[0]
+        with concurrent.futures.ThreadPoolExecutor(max_workers=3) as ex:
+            fm = [ex.submit(ctx.driver, ["c10"] + a, text) for a in ([], ["old"], ["cur"])]
+            ms = [f.result() for f in fm]
+        return classify(ls, impl, rc, ms[0], ms[1], ms[2])[0]
     cur = list(lines)
+    # first cut the tail: nothing after the line the verdict was found at should be needed
+    if index is not None and 0 <= index < len(lines) - 1 and verdict_of(lines[:index + 1]) == verdict:
+        cur = list(lines[:index + 1])
     changed = True
-    budget = 300
-    while changed and budget > 0:
+    budget = 100
+    while changed and budget > 0 and time.time() < deadline:
         changed = False
         i = len(cur) - 1
-        while i >= 0 and budget > 0:
-            if cur[i].startswith(("file", "mr 0 new", "mr 1 new", "mr 2 new")):
+        while i >= 0 and budget > 0 and time.time() < deadline:
+            if cur[i].startswith("file") or re.match(r"(mr|dr|dd|xr|idt) \d+ new", cur[i]):
                 i -= 1
                 continue
             cand = cur[:i] + cur[i + 1:]
@@ -360,18 +464,21 @@ def run_episodes(ctx, harness, episodes):
         spans.append((len(big), len(big) + len(lines)))
         big.extend(lines)
     text = "\n".join(big) + "\n"
-    fix_all = ctx.driver(["c10"], text)
-    old_all = ctx.driver(["c10", "old"], text)
-    if len(fix_all) != len(big) or len(old_all) != len(big):
-        raise vlib.CheckFailure("model driver returned %d/%d lines for %d ops" % (len(fix_all), len(old_all), len(big)))
+    with concurrent.futures.ThreadPoolExecutor(max_workers=3) as ex:
+        fm = [ex.submit(ctx.driver, ["c10"] + a, text) for a in ([], ["old"], ["cur"])]
+        fix_all, old_all, cur_all = [f.result() for f in fm]
+    if len(fix_all) != len(big) or len(old_all) != len(big) or len(cur_all) != len(big):
+        raise vlib.CheckFailure("model driver returned %d/%d/%d lines for %d ops" % (len(fix_all), len(old_all), len(cur_all), len(big)))
     out = []
-    with concurrent.futures.ThreadPoolExecutor(max_workers=min(8, vlib.NCPU)) as ex:
+    with concurrent.futures.ThreadPoolExecutor(max_workers=min(6, vlib.NCPU)) as ex:
         futs = [ex.submit(run_harness, ctx, harness, lines) for _, lines in episodes]
+        if not (len(futs) == len(spans) == len(episodes)):
+            raise vlib.CheckFailure("episode bookkeeping broken")
         for (name, lines), (a, b), fu in zip(episodes, spans, futs):
             impl, rc, err = fu.result()
-            v, idx, detail = classify(lines, impl, rc, fix_all[a:b], old_all[a:b])
+            v, idx, detail = classify(lines, impl, rc, fix_all[a:b], old_all[a:b], cur_all[a:b])
             out.append({"name": name, "lines": lines, "impl": impl, "rc": rc, "err": err, "fix": fix_all[a:b],
-                        "old": old_all[a:b], "verdict": v, "index": idx, "detail": detail})
+                        "old": old_all[a:b], "cur": cur_all[a:b], "verdict": v, "index": idx, "detail": detail})
     return out
 
 
@@ -388,11 +495,15 @@ def report(ctx, harness, res, counts):
     elif v == "D21":
         ctx.violation(KEY_D21, "sqfs_data_reader_read: the cached data block is reused for the same location even when the size word "
                       "differs (damaged image / inconsistent inodes): %s" % res["detail"][:300], replay)
+    elif v == "D33":
+        ctx.violation(KEY_D33, "dr_stream_get_buffered_data: when the fragment block cannot be loaded the function returns without "
+                      "resetting the stream (buf_off = 0 < buf_used stays set): the next call reports success and hands out buf_used "
+                      "bytes the stream never filled (%s)" % res["detail"][:300], replay)
     elif v == "D3":
         ctx.violation(KEY_D3, "sqfs_meta_reader_read after a failed seek: data_used - offset wraps (%s)" % res["detail"][:300], replay)
     else:
-        if counts[v] <= 3:
-            small = shrink(ctx, harness, lines, v) if len(lines) < 2000 and not os.environ.get("VERIF_C10_NOSHRINK") else lines
+        if counts[v] <= 2:
+            small = shrink(ctx, harness, lines, v, res["index"]) if len(lines) < 2000 and not os.environ.get("VERIF_C10_NOSHRINK") else lines
             replay["script"] = small
             what = {"hist": "history-dependent answer: the same query is answered differently by a used reader and by a fresh reader",
                     "crash": "real reader code aborted (sanitizer/signal/timeout)",
@@ -409,7 +520,7 @@ def make_image(ctx, gen, rng, idx):
     d = ctx.scratch / ("img%d" % idx)
     (d / "data").mkdir(parents=True, exist_ok=True)
     bs = rng.choice([4096, 4096, 8192, 16384])
-    comp = rng.choice(["gzip", "xz", "lz4", "zstd", "gzip"])
+    comp = ["gzip", "xz", "lz4", "zstd"][idx] if idx < 4 else rng.choice(["gzip", "xz", "lz4", "zstd", "gzip"])   # every codec every run
     pack, xattr, paths = [], [], []
     dirs = ["/d%d" % i for i in range(rng.randint(1, 4))]
     if rng.random() < 0.6:
@@ -503,13 +614,17 @@ def gen_image_episode(ctx, harness, rng, image, idx, nops, damaged):
     if rc != 0 or len(out) != len(head):
         return head, meta, ("crash", rc, err)
     if not out[-2].startswith("st=ok"):
-        return None, meta, None                      # image no longer opens: nothing to query
+        if not damaged and "bad" not in meta:
+            raise vlib.CheckFailure("an undamaged image written by the working tree's gensquashfs does not open: %s" % out[-2])
+        return None, meta, None                      # damaged image no longer opens: nothing to query
     refs = []
     if out[-1].startswith("refs=") and out[-1] != "refs=-":
         for t in out[-1][5:].split(";"):
             a, b, c = t.split(":")
             refs.append((int(a), int(b), int(c)))
     if not refs:
+        if not damaged and "bad" not in meta:
+            raise vlib.CheckFailure("walking an undamaged image found no inode")
         return None, meta, None
     files = [r for r in refs if r[1] in (2, 9)]
     dirs_ = [r for r in refs if r[1] in (1, 8)]
@@ -525,27 +640,44 @@ def gen_image_episode(ctx, harness, rng, image, idx, nops, damaged):
             return max(0, rng.choice(refs)[0] + rng.choice([-1, 1, 16, -16, 65536, 1 << 16 | 5]))
         return rng.choice([rng.randrange(1 << 20), rng.randrange(1 << 34), (1 << 48) - 1, 8191, 8192 << 16])
 
+    lsslots = []
     for _ in range(nops):
         r = rng.random()
-        if r < 0.22:
+        if r < 0.18:
             lines.append("img inode %d" % any_ref())
-        elif r < 0.40:
+        elif r < 0.30:
             lines.append("img ls %d" % (rng.choice(dirs_)[0] if dirs_ and rng.random() < 0.85 else any_ref()))
-        elif r < 0.52:
+        elif r < 0.36:
+            j = rng.randrange(4)
+            lines.append("img lsopen %d %d" % (j, rng.choice(dirs_)[0] if dirs_ and rng.random() < 0.9 else any_ref()))
+            if j not in lsslots:
+                lsslots.append(j)
+        elif r < 0.48:
+            # one step of an open listing: other queries happen between the steps
+            lines.append("img lsnext %d" % (rng.choice(lsslots) if lsslots else 0))
+        elif r < 0.58:
             p = rng.choice(image["paths"])
             if rng.random() < 0.2:
                 p = p + rng.choice(["/nope", "x", "//", "/../.."])
             if rng.random() < 0.3:
                 p = p.lstrip("/")
             lines.append("img path %s" % p.encode().hex())
-        elif r < 0.74:
+        elif r < 0.70:
             ref = rng.choice(files)[0] if files and rng.random() < 0.9 else any_ref()
             off = rng.choice([0, 0, bs, bs - 1, bs + 1, 2 * bs, rng.randint(0, 6 * bs)])
             size = rng.choice([0, 1, 100, bs, bs + 1, 3 * bs, rng.randint(0, 4 * bs)])
             lines.append("img read %d %d %d" % (ref, off, size))
-        elif r < 0.82:
-            lines.append("img cat %d" % (rng.choice(files)[0] if files and rng.random() < 0.9 else any_ref()))
-        elif r < 0.90:
+        elif r < 0.78:
+            # all three file-data APIs on one file, in a random order (each may find a foreign block/fragment cached)
+            lines.append("img cat %d %s" % (rng.choice(files)[0] if files and rng.random() < 0.9 else any_ref(),
+                                            "".join(rng.sample("rbs", 3))))
+        elif r < 0.86:
+            # one file-data API alone, right after whatever came before
+            ref = rng.choice(files)[0] if files and rng.random() < 0.9 else any_ref()
+            lines.append(rng.choice(["img frag %d" % ref, "img stream %d" % ref, "img block %d %d" % (ref, rng.choice([0, 0, 1, 2, 7]))]))
+        elif r < 0.88:
+            lines.append("img reload")
+        elif r < 0.95:
             i = rng.choice(xidx) if xidx and rng.random() < 0.8 else rng.choice([0, 1, 5, 1000, 0xFFFFFFFF, 0xFFFFFFFE])
             lines.append("img %s %d" % (rng.choice(["xattr", "xattrkv"]), i))
         else:
@@ -598,7 +730,7 @@ def build_patched_harness(ctx):
 
 def run_image_part(ctx, harness, counts):
     gen = ctx.build_tool("gensquashfs")
-    nimg = 3 if ctx.quick() else 40
+    nimg = 5 if ctx.quick() else 40
     nvalid, ndmg, nops = (1, 3, 150) if ctx.quick() else (2, 8, 400)
     eps, stats = [], {"images": 0, "episodes": 0, "ops": 0, "hist_ne_fresh_lines": 0, "unopenable_damaged": 0, "cat_checked": 0,
                       "by_comp": {}, "explained_by_repair": 0}
@@ -630,7 +762,10 @@ def run_image_part(ctx, harness, counts):
             patched[1] = True
         return patched[0]
 
-    with concurrent.futures.ThreadPoolExecutor(max_workers=min(8, vlib.NCPU)) as ex:
+    nvalid_eps = sum(1 for _, m in eps if not m["damaged"] and not m.get("bad"))
+    if stats["images"] == 0 or not eps or nvalid_eps == 0:
+        raise vlib.CheckFailure("whole-image part evaluated nothing: %d images, %d episodes, %d on undamaged images" % (stats["images"], len(eps), nvalid_eps))
+    with concurrent.futures.ThreadPoolExecutor(max_workers=min(6, vlib.NCPU)) as ex:
         futs = [ex.submit(run_harness, ctx, harness, lines, 600) for lines, _ in eps]
         for (lines, meta), fu in zip(eps, futs):
             impl, rc, err = fu.result()
@@ -670,8 +805,10 @@ def run_image_part(ctx, harness, counts):
             else:
                 counts["img-ok"] = counts.get("img-ok", 0) + 1
             if not meta["damaged"] and not meta.get("bad"):
+                if len(lines) != len(impl):
+                    raise vlib.CheckFailure("whole-image episode: %d answers for %d ops" % (len(impl), len(lines)))
                 for l, o in zip(lines, impl):
-                    if l.startswith("img cat ") and o.startswith("read="):
+                    if l.startswith("img cat ") and o.split("=")[0] in ("read", "blocks", "stream"):
                         stats["cat_checked"] += 1
                         f = dict(t.split("=") for t in o.split(" || ")[0].split())
                         if not (f["read"] == f["blocks"] == f["stream"] and f["read"].startswith("0:")):
@@ -704,6 +841,9 @@ def run(ctx):
     wok, wlog = ctx.lean_build(["Sqfs.Witness.C10"])
     if not wok:
         ctx.violation("proof:C10-witness", "Sqfs/Witness/C10.lean no longer builds", {"log": wlog[-1500:]}, found_input=False)
+    m = re.search(r"def allocLimit : Nat := (\d+)", (vlib.LEAN / "Sqfs/Model/C10Dec.lean").read_text())
+    if not m or int(m.group(1)) != ALLOC_LIMIT_MB << 20:
+        raise vlib.CheckFailure("allocation limit of the model (%s) and of the harness (%d MiB) differ" % (m and m.group(1), ALLOC_LIMIT_MB))
     harness = build_harness(ctx)
     eps = corpus_episodes()
     ncorpus = len(eps)
@@ -716,22 +856,40 @@ def run(ctx):
         metas.append(meta)
     ndep = 60 if ctx.quick() else 2000
     for i in range(ndep):
-        lines, meta = gen_data_episode(ctx.rng, 60 if ctx.quick() else 100)
+        lines, meta = gen_data_episode(ctx.rng, 70 if ctx.quick() else 100)
         eps.append(("data/%d" % i, lines))
         metas.append(meta)
+    # the metadata decoders: dir reader (read_inode, readdir, resolve_path), xattr reader, id table
+    parts = {"meta": nep, "data": ndep}
+    for kind, gen, n, ops in (("dir", c10_gen.gen_dir_episode, 50 if ctx.quick() else 1500, 60 if ctx.quick() else 100),
+                              ("xattr", c10_gen.gen_xattr_episode, 50 if ctx.quick() else 1500, 60 if ctx.quick() else 100),
+                              ("id", c10_gen.gen_id_episode, 16 if ctx.quick() else 300, 20)):
+        parts[kind] = n
+        for i in range(n):
+            lines, meta = gen(ctx.rng, ops)
+            eps.append(("%s/%d" % (kind, i), lines))
+            metas.append(meta)
     counts = {}
     results = run_episodes(ctx, harness, eps)
     nlines = nq = nhit = nq_nontrivial = 0
     st_hist, kinds = {}, {}
     distinct = set()
+    op_hist, op_ok = {}, {}
     for res in results:
         report(ctx, harness, res, counts)
+        for op, l in zip(res["lines"], res["impl"]):
+            w = op.split()
+            key = w[0] if w[0] in ("file", "bad", "badclr") else "%s %s" % (w[0], w[2] if len(w) > 2 else "")
+            op_hist[key] = op_hist.get(key, 0) + 1
+            if re.search(r"(st|seek|ret)=0\b|ret=[1-9]|^data=|^ent=|^eof|^pos |^ok", strip_io(l)):
+                op_ok[key] = op_ok.get(key, 0) + 1
         for l in res["impl"]:
             nlines += 1
             if " || " in l:
                 nq += 1
                 body = strip_io(l).split(" || ")[0]
-                if re.search(r"reads=.*0:[0-9a-f]{2}", body) or re.search(r"ret=[1-9]", body):
+                if re.search(r"reads=.*0:[0-9a-f]{2}", body) or re.search(r"ret=[1-9]", body) or re.search(r"st=0 (t=|n=[1-9]|ref=|x=|id=|data=[0-9a-f])", body) \
+                        or body.startswith("ent="):
                     nq_nontrivial += 1
                     distinct.add(vlib.sha(res["lines"][0] + body))
                 if l.endswith("#io=0") and body.startswith("seek=0"):
@@ -747,7 +905,19 @@ def run(ctx):
             if l.startswith("mr") and " q " in l and i < len(res["impl"]):
                 sample.append({"op": l, "impl": res["impl"][i][:200], "model": res["fix"][i][:200]})
                 break
+    # every model function must have been compared with the code, and on answers that carry data: an op kind that was never
+    # evaluated (or never succeeded) means the generators or the harness broke — that is a failure of the check, not a pass
+    need = ["mr seek", "mr read", "mr pos", "mr q", "dr read", "dr block", "dr frag", "dr cat", "dr reload", "st get", "st adv",
+            "dd inode", "dd ls", "dd path", "dd open", "dd next", "xr desc", "xr all", "xr seek", "xr key", "xr val", "idt get"]
+    missing = [k for k in need if op_ok.get(k, 0) == 0]
+    if missing:
+        raise vlib.CheckFailure("no successful evaluation of: %s (evaluated: %s)" % (", ".join(missing), op_hist))
+    for kind, n in parts.items():
+        if n == 0:
+            raise vlib.CheckFailure("episode kind %s is empty" % kind)
     img_stats = run_image_part(ctx, harness, counts)
+    if img_stats["cat_checked"] == 0:
+        raise vlib.CheckFailure("the agreement of the three file-data APIs was not evaluated on any undamaged image")
     nlines += img_stats["ops"]
     ctx.cov.update({
         "whole_image_histories": img_stats,
@@ -764,6 +934,7 @@ def run(ctx):
         "episode_verdicts": counts,
         "queries": nq, "queries_delivering_data": nq_nontrivial, "pure_cache_hit_queries": nhit,
         "status_histogram": st_hist, "block_kind_histogram": kinds,
+        "ops_evaluated": op_hist, "ops_answered_successfully": op_ok, "episodes_by_kind": parts,
     })
     return ctx.finish(LEVEL, trusted_extra=[
         "modelled, not verified directly: the C text of lib/sqfs/src/meta_reader.c; the in-memory sqfs_file_t and the toy sqfs_compressor_t "
@@ -796,7 +967,7 @@ def replay(ctx, path):
         return 1 if bad or rc != 0 else 0
     res = run_episodes(ctx, harness, [("replay", rp["script"])])[0]
     for i, l in enumerate(res["lines"]):
-        print("%-40s impl=%s | repaired-model=%s | unrepaired-model=%s" % (
-            l[:40], res["impl"][i] if i < len(res["impl"]) else "<none>", res["fix"][i], res["old"][i]))
+        print("%-40s impl=%s | repaired-model=%s | model-of-the-code-as-it-is=%s | old-model=%s" % (
+            l[:40], res["impl"][i] if i < len(res["impl"]) else "<none>", res["fix"][i], res["cur"][i], res["old"][i]))
     print("verdict:", res["verdict"], res["detail"], "rc=%d" % res["rc"])
     return 0 if res["verdict"] == "ok" else 1
